@@ -19,7 +19,7 @@ pub fn prop() -> Prop {
     Prop {
         id: "C11",
         level: "exploration",
-        rule: "(1) the complete control-template set: statement trees over {block, als, als/anders, counter loops running 0, 1 and 3 iterations, immediately applied function bodies} nested up to N nodes in which every statement position holds one of {numbered trace point, stop, volgende, antwoord, declaration, empty block, expression}, conditions drawn from {ja, nee, counter tests}, with als/zolang also used as values; each compared with the reference interpreter (trace = output, value, error). (2) residue: every loop-body template up to M nodes iterated 0, 1, 2, 100 and 70 000 times and followed by a probe suffix (a two-argument call, an array literal, a second loop) whose output must equal the model's. (1b) sibling templates: a function whose body is a loop (literal `ja` or counter) around two statements S; T, each any depth-1 template, with and without a trailing value, called with all four truth assignments; (2b) condition-driven loops (the progress is made by an assignment, a call or a conjunction in the condition) around every body of <= 2 statements from {volgende, stop, trace, empty block, declaration, value, three branch shapes}, 0/1/3 iterations, as a statement and as an array element; (3) for every program, the abstract stack machine of its real bytecode (bcmc) must have no cycle that grows the stack. Non-trivial = contains a loop or a branch and is defined by the model; distinct = distinct texts",
+        rule: "(1) the complete control-template set: statement trees over {block, als, als/anders, counter loops running 0, 1 and 3 iterations, immediately applied function bodies} nested up to N nodes in which every statement position holds one of {numbered trace point, stop, volgende, antwoord, declaration, empty block, expression}, conditions drawn from {ja, nee, counter tests}, with als/zolang also used as values; each compared with the reference interpreter (trace = output, value, error). (2) residue: every loop-body template up to M nodes iterated 0, 1, 2, 100 and 70 000 times and followed by a probe suffix (a two-argument call, an array literal, a second loop) whose output must equal the model's. (1c) deep chains: every sequence of 4 (quick) / 5 (thorough) nested control constructs from {als, als-anders with the hole in either branch, counter loop, loop on `ja`, block} around an innermost {trace, stop, volgende, antwoord, value}, a trace point before and after every level, all four truth assignments; (1b) sibling templates: a function whose body is a loop (literal `ja` or counter) around two statements S; T, each any depth-1 template, with and without a trailing value, called with all four truth assignments; (2b) condition-driven loops (the progress is made by an assignment, a call or a conjunction in the condition) around every body of <= 2 statements from {volgende, stop, trace, empty block, declaration, value, three branch shapes}, 0/1/3 iterations, as a statement and as an array element; (3) for every program, the abstract stack machine of its real bytecode (bcmc) must have no cycle that grows the stack. Non-trivial = contains a loop or a branch and is defined by the model; distinct = distinct texts",
         assumptions: &["the value of a loop that iterated is unspecified (U4) and never compared", "reference interpreter control-flow rules of DESIGN 4.2"],
         run,
         replay,
@@ -321,7 +321,78 @@ pub fn sibling_templates(f: &mut dyn FnMut(&[Stmt]) -> bool) -> bool {
     true
 }
 
+/// Deep chains: five control constructs nested in each other (every sequence over {als, als-anders with the
+/// hole in either branch, counter loop, loop on `ja`, block}) around an innermost leaf {trace, stop, volgende,
+/// antwoord, value}, a trace point before and after every level, inside a function called with all four
+/// truth assignments.
+pub fn deep_chains(depth: usize, f: &mut dyn FnMut(&[Stmt]) -> bool) -> bool {
+    let leaves: Vec<Stmt> = vec![print1(int(7)), Stmt::Break, Stmt::Continue, Stmt::Return(int(2)), es(int(1))];
+    let kinds = 6usize;
+    let total = kinds.pow(depth as u32);
+    for code in 0..total {
+        for leaf in &leaves {
+            let mut inner: Vec<Stmt> = vec![leaf.clone()];
+            let mut c = code;
+            let mut in_loop = false;
+            let mut shape = Vec::new();
+            for _ in 0..depth {
+                shape.push(c % kinds);
+                c /= kinds;
+            }
+            // build from the innermost level outwards; shape[0] is the innermost construct
+            for (lvl, k) in shape.iter().enumerate() {
+                let cond = if lvl % 2 == 0 { id("a") } else { id("b") };
+                let name = format!("n{lvl}");
+                let construct: Vec<Stmt> = match k {
+                    0 => vec![es(iff(cond, inner.clone(), None))],
+                    1 => vec![es(iff(cond, inner.clone(), Some(vec![print1(int(8))])))],
+                    2 => vec![es(iff(cond, vec![print1(int(8))], Some(inner.clone())))],
+                    3 => {
+                        in_loop = true;
+                        let mut b = vec![es(assign(id(&name), infix(id(&name), Operator::Add, int(1))))];
+                        b.extend(inner.clone());
+                        vec![let_(&name, int(0)), es(whil(infix(id(&name), Operator::Lt, int(2)), b))]
+                    }
+                    4 => {
+                        in_loop = true;
+                        let mut b = inner.clone();
+                        b.push(Stmt::Break);
+                        vec![es(whil(boolean(true), b))]
+                    }
+                    _ => vec![Stmt::Block(inner.clone())],
+                };
+                inner = vec![print1(int(7))];
+                inner.extend(construct);
+                inner.push(print1(int(7)));
+            }
+            // stop / volgende outside every loop are refused by the compiler: not a control-flow question
+            if matches!(leaf, Stmt::Break | Stmt::Continue) && !in_loop {
+                continue;
+            }
+            let mut body = inner;
+            body.push(es(int(9)));
+            let mut prog = vec![es(func("t", &["a", "b"], body))];
+            for (a, b) in [(true, true), (true, false), (false, true), (false, false)] {
+                prog.push(es(calln("print", vec![array(vec![int(5), calln("t", vec![boolean(a), boolean(b)]), int(6)])])));
+            }
+            renumber_prints(&mut prog);
+            if !f(&prog) {
+                return false;
+            }
+        }
+    }
+    true
+}
+
 fn depth_family(sh: &mut Shard, tier: Tier) {
+    deep_chains(if tier == Tier::Quick { 4 } else { 5 }, &mut |prog| {
+        if sh.mine() {
+            sh.begin(&|| printer::program(prog));
+            sh.count("family:deep-chains");
+            check_program(sh, "deep-chains", prog, 4_000);
+        }
+        sh.running()
+    });
     sibling_templates(&mut |prog| {
         if sh.mine() {
             sh.begin(&|| printer::program(prog));
